@@ -493,6 +493,11 @@ class Crate:
             self.by_def[b.defpath] = b
         self.consts = {c['path']: c for c in j['consts']}
         self.adts = {a['path']: a for a in j['adts']}
+        for a in j['adts']:
+            if a.get('kind') == 'enum':
+                for v in a.get('variants', []):
+                    if v.get('discr') is not None:
+                        ENUM_DISCR[(a['path'], v['name'])] = v['discr']
         self.impls = j['impls']
         self.traits = {t['path']: t['supertraits'] for t in j.get('traits', [])}
 
@@ -1431,12 +1436,103 @@ def reachable_ps(body, start, removed_blocks=(), removed_edges=(), env0=None):
     return blocks
 
 
+STD_VARIANT_DISCR = {'Ok': 0, 'Err': 1, 'Continue': 0, 'Break': 1, 'None': 0, 'Some': 1}
+
+
+def reachable_vs(body, start, removed_blocks=(), removed_edges=(), env0=None):
+    """blocks reachable from `start` when the variant held by Result / ControlFlow / Option locals is tracked along the path:
+    `x = Err(..)` / `x = Ok(..)` aggregates, moves and copies, `Try::branch(x)` (Ok -> Continue, Err -> Break), `from_residual` (-> Err),
+    variant-preserving combinators (map_err, map, inspect*, into on the payload), `d = discriminant(x)` and switches on d. A switch on a value
+    whose variant is known follows only the matching arm. Locals whose address is taken mutably are not tracked. Sound over-approximation of the
+    feasible paths, tighter than plain reachability; normal edges only."""
+    removed_blocks = set(removed_blocks)
+    removed_edges = set(removed_edges)
+    if start in removed_blocks:
+        return set()
+    untracked = set(mut_borrowed(body))
+    init = (start, tuple(sorted((env0 or {}).items())))
+    seen = {init}
+    st = [init]
+    blocks = set()
+    KEEP = {'map_err', 'inspect_err', 'inspect', 'or_else'}
+    while st:
+        bb, envt = st.pop()
+        blocks.add(bb)
+        env = dict(envt)
+        b = body.blocks[bb]
+        for s in b.stmts:
+            if s.kind != 'assign' or s.place is None:
+                continue
+            l = s.place[0]
+            if s.place[1]:
+                if not (len(s.place[1]) == 1 and s.place[1][0][0] == 'down'):
+                    env.pop(l, None)   # a field store into a tracked value: forget it (downcast field inits of aggregates excepted)
+                continue
+            rv = s.rv
+            v = None
+            if l not in untracked:
+                if rv.r == 'aggregate' and rv.j.get('agg') == 'adt' and rv.j.get('variant') in STD_VARIANT_DISCR:
+                    v = rv.j.get('variant')
+                elif rv.r == 'use' and rv.ops[0].place is not None and not rv.ops[0].place[1]:
+                    v = env.get(rv.ops[0].place[0])
+                elif rv.r == 'discr' and not rv.place[1]:
+                    sv = env.get(rv.place[0])
+                    if sv in STD_VARIANT_DISCR:
+                        v = ('d', STD_VARIANT_DISCR[sv])
+            if v is None:
+                env.pop(l, None)
+            else:
+                env[l] = v
+        t = b.term
+        succs = t.succs(False)
+        if t.kind == 'call' and t.dest is not None and not t.dest[1]:
+            d = t.dest[0]
+            v = None
+            a0 = t.args[0] if t.args else None
+            av = env.get(a0.place[0]) if (a0 is not None and a0.place is not None and not a0.place[1]) else None
+            if d not in untracked:
+                if t.cmethod == 'branch' and t.ctrait.endswith('Try'):
+                    v = {'Ok': 'Continue', 'Err': 'Break', 'Some': 'Continue', 'None': 'Break'}.get(av)
+                elif t.cmethod == 'from_residual':
+                    v = 'Err' if body.lty(d).startswith('std::result::Result<') else ('None' if body.lty(d).startswith('std::option::Option<') else None)
+                elif t.cmethod in KEEP and av in ('Ok', 'Err'):
+                    v = av if t.cmethod != 'or_else' else None
+                elif t.cmethod == 'map' and av in ('Ok', 'Err', 'Some', 'None'):
+                    v = av
+                elif t.cmethod == 'ok' and av in ('Ok', 'Err'):
+                    v = 'Some' if av == 'Ok' else 'None'
+            if v is None:
+                env.pop(d, None)
+            else:
+                env[d] = v
+        if t.kind == 'switch' and t.discr.place is not None and not t.discr.place[1]:
+            v = env.get(t.discr.place[0])
+            if isinstance(v, tuple) and v[0] == 'd':
+                tgt = None
+                for val, tg in t.targets:
+                    if val == v[1]:
+                        tgt = tg
+                succs = [tgt if tgt is not None else t.otherwise]
+        envt2 = tuple(sorted(env.items(), key=lambda kv: kv[0]))
+        for s2 in succs:
+            if s2 in removed_blocks or (bb, s2) in removed_edges:
+                continue
+            st2 = (s2, envt2)
+            if st2 not in seen:
+                seen.add(st2)
+                st.append(st2)
+    return blocks
+
+
 DATA_PREFIXES = ('[', 'std::vec::Vec<', 'u8', 'u16', 'u32', 'u64', 'u128', 'usize', 'i8', 'i16', 'i32', 'i64', 'i128', 'isize',
                  'std::string::String', 'bool', '(', 'generic_array::GenericArray<', 'std::boxed::Box<[', 'char')
 
 
 def is_data_type(ty):
     return ty.startswith(DATA_PREFIXES)
+
+
+ENUM_DISCR = {}   # (adt path, variant name) -> discriminant, filled when a Program is loaded
 
 
 def const_eval(body, op, depth=0):
@@ -1449,6 +1545,25 @@ def const_eval(body, op, depth=0):
         return e[1]
     if k == 'cast':
         return const_eval(body, e[1], depth + 1)
+    if k == 'discr':
+        # discriminant of a local holding a constant field-less enum value (`tag as u8` with tag a constant passed to a helper)
+        pl = e[1]
+        if pl[1]:
+            return None
+        d = unique_def(body, pl[0])
+        if d is None or d[2] != 'assign':
+            return None
+        rv = d[3].rv
+        if rv.r == 'aggregate' and rv.j.get('agg') == 'adt' and not rv.ops:
+            return ENUM_DISCR.get((rv.j.get('adt'), rv.j.get('variant')))
+        if rv.r == 'use' and rv.ops[0].kind == 'const':
+            txt = (rv.ops[0].k or {}).get('txt', '')
+            if '::' in txt:
+                a, v = txt.rsplit('::', 1)
+                return ENUM_DISCR.get((a, v), ENUM_DISCR.get((a.split('::', 1)[-1], v)))
+        if rv.r == 'use' and rv.ops[0].place is not None and not rv.ops[0].place[1]:
+            return const_eval(body, ('discr', (rv.ops[0].place[0], ())), depth + 1)
+        return None
     if k == 'binop':
         a = const_eval(body, e[2], depth + 1)
         b = const_eval(body, e[3], depth + 1)
